@@ -191,13 +191,8 @@ func multiScalarmultVartimeFinal(r, point *ge25519.Ge25519, scalar *modm.Bignum2
 		flag >>= 1
 	}
 
-	// exponentiate
+	// exponentiate (r already holds the contribution of the first bit)
 	for {
-		ge25519.Double(r, r)
-		if scalar[limb]&flag != 0 {
-			ge25519.Add(r, r, point)
-		}
-
 		flag >>= 1
 		if flag == 0 {
 			if limb == 0 {
@@ -206,6 +201,11 @@ func multiScalarmultVartimeFinal(r, point *ge25519.Ge25519, scalar *modm.Bignum2
 			limb--
 
 			flag = topbit
+		}
+
+		ge25519.Double(r, r)
+		if scalar[limb]&flag != 0 {
+			ge25519.Add(r, r, point)
 		}
 	}
 }
